@@ -476,3 +476,6 @@ func Normalize(j any, md protoreflect.MessageDescriptor) J {
 	}
 	return out
 }
+
+// ScalarJSON renders a scalar protoreflect.Value as the abstract bit-pattern tuple.
+func ScalarJSON(kind protoreflect.Kind, v protoreflect.Value) any { return scalar(kind, v) }
